@@ -120,6 +120,243 @@ ERR_PROJECTS = {
 }
 
 
+
+# ----------------------------------------------------------------------------------------------------------------------
+# Family "derive-both": one type derives BOTH ToString and ToJson.  Dimensions: kind of item (struct, enum, one type built
+# from another, generic struct / enum / both: derive reports diagnostics, two per type) x spelling of the request (one
+# attribute, one attribute with the traits the other way round, two stacked attributes in either order).  Whatever order the
+# compiler generates the two impl blocks / reports the two diagnostics in, it is the same order in every process.
+DERIVE_SPELLINGS = {
+    "one-attribute": ["#[derive(ToString, ToJson)]"],
+    "one-attribute-reversed": ["#[derive(ToJson, ToString)]"],
+    "two-attributes": ["#[derive(ToString)]", "#[derive(ToJson)]"],
+    "two-attributes-reversed": ["#[derive(ToJson)]", "#[derive(ToString)]"],
+}
+DERIVE_ITEMS = {
+    # name: (declarations with {D} where the derive request goes, statements of main)
+    "struct": ("{D}\nstruct Point { x: int32, y: int32 }\n",
+               "let p = Point { x: 10, y: 20 };\n    let _ = string_println(p.to_string());\n    let _ = string_println(p.to_json());"),
+    "enum": ("{D}\nenum Shape { Dot, Circle(int32), Rect(int32, int32) }\n",
+             "let s = Rect(3, 4);\n    let _ = string_println(s.to_string());\n    let _ = string_println(Dot.to_json());\n    let _ = string_println(s.to_json());"),
+    "struct-of-struct-and-enum": ("{D}\nstruct Point { x: int32, y: int32 }\n{D}\nenum Tag { Plain, Named(string) }\n{D}\nstruct Seg { a: Point, b: Point, t: Tag }\n",
+                                  "let g = Seg { a: Point { x: 1, y: 2 }, b: Point { x: 3, y: 4 }, t: Named(\"n\") };\n    let _ = string_println(g.to_string());\n    let _ = string_println(g.to_json());"),
+    "generic-struct": ("{D}\nstruct Pair[T] { a: T, b: T }\n", ""),
+    "generic-enum": ("{D}\nenum Opt[T] { No, Yes(T) }\n", ""),
+    "generic-struct-and-enum-and-plain-struct": ("{D}\nstruct Pair[T] { a: T, b: T }\n{D}\nenum Opt[T] { No, Yes(T) }\n{D}\nstruct Point { x: int32, y: int32 }\n", ""),
+}
+
+
+def derive_both_programs():
+    """{name: source text of main.gom}"""
+    out = {}
+    for iname, (decls, body) in DERIVE_ITEMS.items():
+        for sname, lines in DERIVE_SPELLINGS.items():
+            src = "package Main\n\n" + decls.replace("{D}", "\n".join(lines)) + "\nfn main() -> unit {\n    " + (body + "\n    " if body else "") + "()\n}\n"
+            out[f"{iname}:{sname}"] = src
+    return out
+
+
+def _pool_map(fn, items):
+    from concurrent.futures import ThreadPoolExecutor
+    with ThreadPoolExecutor(max_workers=NCPU) as ex:
+        return list(ex.map(fn, items))
+
+
+def run_cli(args, s=None, timeout=300):
+    r = subprocess.run(pinned([CLI] + args, s) if s else [CLI] + args, stdout=subprocess.PIPE, stderr=subprocess.PIPE, text=True, timeout=timeout)
+    return r.returncode, r.stdout, r.stderr
+
+
+def iface_hash(text):
+    try:
+        return json.loads(text).get("interface_hash")
+    except Exception:
+        return None
+
+
+def check_derive_family(tier, rep, root):
+    """Compile every derive-both program in KD processes with pinned hash seeds: (a) the whole pipeline through the harness
+    (Go text, every stage dump, diagnostics with their order), (b) `goml check` of the same file (interface text and hash, or the
+    diagnostics it prints).  The family's programs are tiny, so it gets more seeds than the projects: the decisive hash table
+    has two entries, one seed in two realises each order."""
+    KD = 16 if tier == "quick" else 48
+    seeds = seeds_for(KD + 1)[1:]
+    progs = derive_both_programs()
+    reqs = []
+    for name, src in progs.items():
+        d = os.path.join(root, "derive_" + name.replace(":", "_").replace("-", "_"))
+        os.makedirs(d, exist_ok=True)
+        open(os.path.join(d, "main.gom"), "w").write(src)
+        reqs.append({"id": "derive:" + name, "path": os.path.join(d, "main.gom"), "dumps": True, "disc": False})
+    answers = run_seeded(reqs, seeds)
+    st = {"programs": len(reqs), "seeds": KD, "accepted": 0, "with_diagnostics": 0, "pipeline_comparisons": 0, "check_comparisons": 0}
+    for j, rq in enumerate(reqs):
+        base = obs_of(answers[0][j])
+        if base["verdict"] == "ok":
+            st["accepted"] += 1
+        elif len(base["diags"]) >= 2:
+            st["with_diagnostics"] += 1
+        for si in range(1, KD):
+            st["pipeline_comparisons"] += 1
+            o = obs_of(answers[si][j])
+            if o != base:
+                what, where = first_diff(base, o)
+                rep.violation(f"nondeterministic:{what}:{rq['id']}", {"seed_a": seeds[0], "seed_b": seeds[si], "first_difference": where, "source": progs[rq["id"][7:]]},
+                              replay={"request": rq, "seeds": [seeds[0], seeds[si]]})
+                break
+    if st["accepted"] < 8 or st["with_diagnostics"] < 8:
+        raise ToolError(f"vacuity: derive-both family: {st}")
+    # (b) interface files / printed diagnostics of `goml check`
+    build_cli()
+    jobs = [(rq, si) for rq in reqs for si in range(KD)]
+
+    def one(job):
+        rq, si = job
+        out = os.path.join(os.path.dirname(rq["path"]), f"chk{si}")
+        shutil.rmtree(out, ignore_errors=True)
+        os.makedirs(out)
+        rc, so, se = run_cli(["check", "--package", "Main", "--input", rq["path"], "--output", out + "/Main"], seeds[si])
+        it = open(out + "/Main.interface").read() if os.path.exists(out + "/Main.interface") else None
+        return {"rc": rc, "printed": (so + se).replace(out, "OUT"), "interface": it}
+    res = _pool_map(one, jobs)
+    for j, rq in enumerate(reqs):
+        base = res[j * KD]
+        for si in range(1, KD):
+            o = res[j * KD + si]
+            st["check_comparisons"] += 1
+            if o != base:
+                what = "check-verdict" if o["rc"] != base["rc"] else "interface-hash" if iface_hash(o["interface"] or "") != iface_hash(base["interface"] or "") else \
+                    "interface-file" if o["interface"] != base["interface"] else "check-diagnostics"
+                rep.violation(f"nondeterministic:{what}:{rq['id']}",
+                              {"seed_a": seeds[0], "seed_b": seeds[si], "a": {k: str(v)[:600] for k, v in base.items() if k != "interface"}, "b": {k: str(v)[:600] for k, v in o.items() if k != "interface"},
+                               "interface_hash_a": iface_hash(base["interface"] or ""), "interface_hash_b": iface_hash(o["interface"] or ""), "source": progs[rq["id"][7:]]},
+                              replay={"request": rq, "seeds": [seeds[0], seeds[si]]})
+                break
+    return st
+
+
+# ----------------------------------------------------------------------------------------------------------------------
+# Family "input-order": `check` / `build` take the sources of ONE package as a list of files.  The list is a set: the order in
+# which the caller enumerates it (a shell glob, a build tool walking directories) must not show in the interface (text, hash),
+# in the .core or in the linked Go.  Dimensions: layout of the package's files over directories (one directory; the same base
+# name in two / three / nested directories; with another file whose name sorts before) x every permutation of the command line,
+# plus command lines that name a file twice.
+# NOT varied, on purpose: the *spelling* of a path.  Genuine defect of goml seen while building this family (reported, kept out):
+# read_source_files sorts the paths as spelled, so `--input ./lib/shapes/types.gom lib/colors/types.gom` and
+# `--input lib/shapes/types.gom lib/colors/types.gom` (the same two files) give different file orders and different
+# interface hashes.  Every command line below spells every file the same way (absolute path under one root).
+INPUT_LAYOUTS = {
+    "one-directory": ["lib/alpha.gom", "lib/beta.gom", "lib/gamma.gom"],
+    "same-base-name-in-two-directories": ["lib/shapes/types.gom", "lib/colors/types.gom"],
+    "same-base-name-in-two-directories-and-an-earlier-name": ["lib/shapes/types.gom", "lib/colors/types.gom", "lib/misc/sizes.gom"],
+    "same-base-name-in-three-directories": ["lib/b/mod.gom", "lib/c/mod.gom", "lib/a/mod.gom"],
+    "same-base-name-in-nested-directories": ["lib/types.gom", "lib/inner/types.gom", "lib/inner/deep/types.gom"],
+    "name-order-opposite-to-directory-order": ["lib/z/a.gom", "lib/y/b.gom", "lib/x/c.gom"],
+}
+
+
+def input_order_sources(rels):
+    """{rel: text} of package Lib (one group of declarations per file, each file referring to the previous one) and app/main.gom"""
+    files = {}
+    tags = []
+    for j, rel in enumerate(rels):
+        t = "f%d" % j
+        T = "F%d" % j
+        prev = f" + {tags[-1]}_f(1)" if tags else ""
+        files[rel] = (f"package Lib\n\nstruct {T}S {{ v: int32 }}\nenum {T}E {{ {T}A, {T}B(int32) }}\ntrait {T}Tr {{ fn {t}_m(Self) -> int32; }}\n"
+                      f"impl {T}Tr for {T}S {{ fn {t}_m(self: {T}S) -> int32 {{ self.v + {j} }} }}\n"
+                      f"fn {t}_f(x: int32) -> int32 {{ let q = x * {j + 2}; match q {{ 0 => 1, _ => q + {j} }} }}\n"
+                      f"fn {t}_pick(e: {T}E) -> int32 {{ match e {{ {T}A => {j}, {T}B(n) => n }} }}\n"
+                      f"fn {t}_g(s: {T}S) -> int32 {{ let w = {T}Tr::{t}_m(s); w{prev} }}\n")
+        tags.append(t)
+    uses = "".join(f"    let _ = string_println(int32_to_string(Lib::{t}_g(Lib::{t.upper()}S {{ v: {j + 1} }}) + Lib::{t}_pick(Lib::{t.upper()}E::{t.upper()}B({j + 5}))));\n" for j, t in enumerate(tags))
+    files["app/main.gom"] = "package Main\n\nimport Lib\n\nfn main() -> unit {\n" + uses + "    ()\n}\n"
+    return files
+
+
+def check_input_orders(tier, rep, root, s):
+    """Every command-line order of every layout through check / build / build Main / link (all processes pinned to one hash seed,
+    so that the order of the inputs is the only thing that varies)."""
+    import itertools
+    build_cli()
+    jobs = []
+    for lname, rels in INPUT_LAYOUTS.items():
+        proj = os.path.join(root, "inputs_" + lname.replace("-", "_"))
+        shutil.rmtree(proj, ignore_errors=True)
+        files = input_order_sources(rels)
+        for rel, txt in files.items():
+            os.makedirs(os.path.dirname(os.path.join(proj, rel)), exist_ok=True)
+            open(os.path.join(proj, rel), "w").write(txt)
+        canon = sorted(rels)
+        orders = [list(p) for p in itertools.permutations(canon)]
+        # a file named twice, with the others between the two mentions / in front
+        orders += [[canon[0]] + canon[1:] + [canon[0]], canon[::-1] + [canon[-1]] + canon[:1]]
+        if tier != "quick":
+            orders += [list(p) + [p[0]] for p in itertools.permutations(canon)][1:]
+        for oi, order in enumerate(orders):
+            jobs.append((lname, proj, oi, order))
+
+    def one(job):
+        lname, proj, oi, order = job
+        out = os.path.join(proj, f"out{oi}")
+        os.makedirs(out + "/chk", exist_ok=True)
+        inputs = [os.path.join(proj, r) for r in order]
+        norm = lambda t: t.replace(out, "OUT")
+        o = {}
+        rc, so, se = run_cli(["check", "--package", "Lib", "--input"] + inputs + ["--output", out + "/chk/Lib"], s)
+        o["check-verdict"] = (rc, norm(so + se))
+        o["check-interface"] = open(out + "/chk/Lib.interface").read() if os.path.exists(out + "/chk/Lib.interface") else None
+        rc, so, se = run_cli(["build", "--package", "Lib", "--input"] + inputs + ["--output", out + "/Lib"], s)
+        o["build-verdict"] = (rc, norm(so + se))
+        o["interface"] = open(out + "/Lib.interface").read() if os.path.exists(out + "/Lib.interface") else None
+        o["core"] = norm(open(out + "/Lib.core").read()) if os.path.exists(out + "/Lib.core") else None
+        o["linked-go"] = None
+        if rc == 0:
+            rc2, so, se = run_cli(["build", "--package", "Main", "--input", os.path.join(proj, "app/main.gom"), "--interface-path", out, "--output", out + "/Main"], s)
+            o["dependent-verdict"] = (rc2, norm(so + se))
+            if rc2 == 0:
+                rc3, so, se = run_cli(["link", "--input", out + "/Lib.core", out + "/Main.core", "--output", out + "/main.go"], s)
+                o["link-verdict"] = (rc3, norm(so + se))
+                o["linked-go"] = open(out + "/main.go").read() if os.path.exists(out + "/main.go") else None
+        return o
+    res = _pool_map(one, jobs)
+    st = {"layouts": len(INPUT_LAYOUTS), "command_lines": len(jobs), "comparisons": 0, "linked": 0}
+    base = {}
+    reported = set()
+    for job, o in zip(jobs, res):
+        lname, proj, oi, order = job
+        if oi == 0:
+            base[lname] = (order, o)
+            if o["build-verdict"][0] != 0 or o["check-verdict"][0] != 0 or o.get("linked-go") is None:
+                raise ToolError(f"input-order layout {lname} does not build in the canonical order: {o['build-verdict']} {o.get('dependent-verdict')} {o.get('link-verdict')}")
+            continue
+        st["comparisons"] += 1
+        st["linked"] += o.get("linked-go") is not None
+        border, b = base[lname]
+        if o == b or lname in reported:
+            continue
+        reported.add(lname)
+        if o["check-verdict"][0] != b["check-verdict"][0] or o["build-verdict"][0] != b["build-verdict"][0]:
+            what = "verdict"
+        elif iface_hash(o["interface"] or "") != iface_hash(b["interface"] or "") or iface_hash(o["check-interface"] or "") != iface_hash(b["check-interface"] or ""):
+            what = "interface-hash"
+        elif o["interface"] != b["interface"] or o["check-interface"] != b["check-interface"]:
+            what = "interface-file"
+        elif o["core"] != b["core"]:
+            what = "core-file"
+        elif o["linked-go"] != b["linked-go"]:
+            what = "linked-go"
+        else:
+            what = "printed-output"
+        k, where = first_diff({k: (v if isinstance(v, (str, type(None))) else str(v)) or "" for k, v in b.items()}, {k: (v if isinstance(v, (str, type(None))) else str(v)) or "" for k, v in o.items()})
+        rep.violation(f"depends-on-input-order:{what}:{lname}",
+                      {"inputs_a": border, "inputs_b": order, "first_difference_in": k, "first_difference": where,
+                       "interface_hash_a": iface_hash(b["interface"] or ""), "interface_hash_b": iface_hash(o["interface"] or ""),
+                       "verdicts_b": [o.get("check-verdict"), o.get("build-verdict")]},
+                      replay={"layout": lname, "files": INPUT_LAYOUTS[lname], "inputs_a": border, "inputs_b": order, "seed": s})
+    return st
+
+
 def obs_of(ans):
     """Everything C13 says must be byte-identical."""
     o = {k: ans.get(k) for k in ("verdict", "go", "core", "mono", "lift", "anf", "tast", "hir", "ast")}
@@ -290,6 +527,10 @@ def run(tier, rep):
                 iface_compared += 1
                 if blobs.setdefault((p, ext), b) != b:
                     rep.violation(f"nondeterministic:{ext}-file", {"package": p, "seed": s}, replay={"seeds": [seeds[0], s]})
+    # ---- 4. one type deriving both ToString and ToJson, under more seeds (pipeline through the harness and `goml check`)
+    rep.coverage["derive_both_family"] = check_derive_family(tier, rep, root)
+    # ---- 5. the order in which the sources of a package are named on the command line of check / build
+    rep.coverage["input_order_family"] = check_input_orders(tier, rep, root, seeds[0])
     rep.coverage.update({
         "states": states + r2.distinct + r3.distinct, "transitions": trans + r2.generated + r3.generated,
         "traces_validated_against_impl": orders_checked,
